@@ -175,6 +175,21 @@ func c14Seq(r *hx.Rand, n int, out *hx.Out, _ []string) {
 				}
 				emit(fmt.Sprintf("u%d:%d", p, nk), fmt.Sprintf("U%d", idx))
 				lookups++
+			case k == 17 && len(w.sfacs) > 0 && len(w.uprovs) > 0 && len(w.nodes) > 0 && !long:
+				// the label pass-through provider of a string factory, falling back to a UUID provider
+				sf, p, nk := rr.Intn(len(w.sfacs)), rr.Intn(len(w.uprovs)), rr.Intn(len(w.nodes))
+				s := w.sfacs[sf].(blanknodes.StringProviderProvider).GetStringProvider(w.uprovs[p]).GetBlankNodeString(w.nodes[nk])
+				o := "T" + hx.X(s)
+				if c14UUIDShaped(s) {
+					idx, ok := w.useen[p][s]
+					if !ok {
+						idx = len(w.useen[p])
+						w.useen[p][s] = idx
+					}
+					o = fmt.Sprintf("U%d", idx)
+				}
+				emit(fmt.Sprintf("t%d:%d:%d", sf, p, nk), o)
+				lookups++
 			case len(w.maps) > 0 && len(w.nodes) > 0:
 				m, nk := rr.Intn(len(w.maps)), rr.Intn(len(w.nodes))
 				give(fmt.Sprintf("m%d:%d", m, nk), w.maps[m].MapBlankNode(w.nodes[nk]), false)
@@ -195,6 +210,23 @@ func c14Seq(r *hx.Rand, n int, out *hx.Out, _ []string) {
 					oracle = fmt.Sprintf("provider %d: distinct nodes %d and %d share label %q", pi, j, i, s1)
 				}
 				seen[s1] = i
+			}
+		}
+		// the same for every pass-through provider (own labels, fallback labels)
+		for si, sf := range w.sfacs {
+			for ui, up := range w.uprovs {
+				p := sf.(blanknodes.StringProviderProvider).GetStringProvider(up)
+				seen := map[string]int{}
+				for i, nd := range w.nodes {
+					s1, s2 := p.GetBlankNodeString(nd), p.GetBlankNodeString(nd)
+					if s1 != s2 {
+						oracle = fmt.Sprintf("pass-through provider %d/%d: node %d labelled %q then %q", si, ui, i, s1, s2)
+					}
+					if j, ok := seen[s1]; ok && !w.nodes[j].TermEquals(nd) {
+						oracle = fmt.Sprintf("pass-through provider %d/%d: distinct nodes %d and %d share label %q", si, ui, j, i, s1)
+					}
+					seen[s1] = i
+				}
 			}
 		}
 		out.Emit(hx.Case{Kind: "K/C14/seq", Line: "bn\t" + strings.Join(ops, ";"), Impl: strings.Join(outs, ";"),
@@ -370,4 +402,24 @@ func c14Conc(r *hx.Rand, n int, out *hx.Out, _ []string) {
 			Class: fmt.Sprintf("G=%d", G), NonTri: true, Oracle: oracle,
 			Desc: fmt.Sprintf("seed-derived schedule #%d: %d goroutines x %d ops on shared factory/string factory/providers/mapper", c, G, per)})
 	}
+}
+
+// c14UUIDShaped: 8-4-4-4-12 hex digits
+func c14UUIDShaped(s string) bool {
+	if len(s) != 36 {
+		return false
+	}
+	for i, c := range s {
+		switch i {
+		case 8, 13, 18, 23:
+			if c != '-' {
+				return false
+			}
+		default:
+			if !strings.ContainsRune("0123456789abcdefABCDEF", c) {
+				return false
+			}
+		}
+	}
+	return true
 }
